@@ -139,6 +139,16 @@ def _object_model(tree):
     f = find_func(ot, "_generate_row")
     out += _strlist("generateRowBody", [ast.unparse(s) for s in f.body if not (isinstance(s, ast.Expr) and isinstance(s.value, ast.Constant))],
                     "`ObjectTemplate._generate_row` statements, in order")
+    f = find_func(ot, "generate_rows")
+    out += _strlist("generateRowsBody", [ast.unparse(s) for s in f.body if not (isinstance(s, ast.Expr) and isinstance(s.value, ast.Constant))],
+                    "`ObjectTemplate.generate_rows` statements")
+    f = find_func(ot, "_generate_fields")
+    out += _strlist("generateFieldsBody", [ast.unparse(s) for s in f.body if not (isinstance(s, ast.Expr) and isinstance(s.value, ast.Constant))],
+                    "`ObjectTemplate._generate_fields` statements")
+    vd = find_class(tree, "VariableDefinition")
+    out += _strlist("varExecuteBody", _calls_in_order(find_func(vd, "execute")), "`VariableDefinition.execute` statements")
+    sv = find_class(tree, "SimpleValue")
+    out += _strlist("simpleValueRender", _calls_in_order(find_func(sv, "render")), "`SimpleValue.render` statements")
     f = find_func(ot, "_evaluate_count")
     rets = [ast.unparse(n.value) for n in ast.walk(f) if isinstance(n, ast.Return)]
     out += _strlist("evaluateCountReturns", rets, "`_evaluate_count` return expressions")
